@@ -42,6 +42,12 @@ CHECKS["C05"] = dict(
    text="All token strings of length <=4 (quick) / <=5 (thorough) over a 30-class alphabet (+18 rare/hostile classes up to length 3/4) in 3 contexts; delete / duplicate / replace-by-class at every token, truncation at every byte and hostile-character insertion at every token start of the 20 smallest (quick) / all (thorough) corpus files; all 256 ordered pairs of two-module snippets; 14 nesting ladders up to depth 512 each rung in a forked process with the CLI's stack. Every input goes through parse, check, both diagnostic renderings, format (when no syntax error) and compile_sources: no panic, no process death, no hang (20 s), and no identifier/literal token lost or invented without a syntax error.",
    note="'All UTF-8 strings' is not enumerable; the claim is over the listed finite neighbourhoods. 'Reasonably sized' is fixed at nesting depth <= 512.",
    design_ref="DESIGN.md §5 C05")
+CHECKS["C14"] = dict(
+   category="exploration",
+   technique="exhaustive enumeration of single-gap and uniform layout variants of the corpus; oracle: independent tokenizer + containment/ordering/exact-name invariants over a generic tree view of the AST, diagnostics and query results",
+   text="For every base text (25 smallest corpus files quick / all thorough, plus every expression template) the original layout, 7 uniform fillers, one long line and every inter-token gap replaced by each of 7 fillers (space, LF, CRLF, tab, mixed, multi-line block comment, line comment): every AST node range has start<=end, lies inside the document, encloses its parts, siblings are disjoint and ordered, every identifier-bearing node's range is exactly the token spelling that name (per an independent tokenizer); every diagnostic location, folding range, definition/reference location and quick-fix edit range lies inside the document.",
+   note="ASCII layouts only (column unit for non-ASCII text is not fixed by the property). The parser's deliberate choice to start a class's type-definition range at its type parameters is treated as containment, not as sibling overlap.",
+   design_ref="DESIGN.md §5 C14")
 NOT_YET = "check not built yet in this round (planned: see DESIGN.md §5)"
 
 hooks_commits = subprocess.run(["git","-C","/repo","log","--format=%H %s"],capture_output=True,text=True).stdout.splitlines()
